@@ -39,6 +39,7 @@ type Kernel struct {
 	FloatOp bool              `json:"floatop"`  // arithmetic is on floats: / is float division
 	RetVar  string            `json:"retvar"`   // return this variable instead of translating the return expression
 	Closure bool              `json:"closure"`  // translate the body of the first function literal inside the function
+	Pairs   map[string][]string `json:"pairs"`  // `v, ok := <expr>` (type assertion, map lookup, two-valued call): expr text -> [Lean value, Lean ok/err]
 }
 
 type Schema struct {
@@ -74,8 +75,18 @@ func exprText(e ast.Expr) string {
 		return exprText(x.X)
 	case *ast.UnaryExpr:
 		return x.Op.String() + exprText(x.X)
+	case *ast.TypeAssertExpr:
+		return exprText(x.X) + ".(" + exprText(x.Type) + ")"
 	}
 	return fmt.Sprintf("<%T>", e)
+}
+
+// pairKey is the schema key of the right-hand side of a two-valued assignment
+func pairKey(e ast.Expr) string {
+	if ix, ok := e.(*ast.IndexExpr); ok {
+		return exprText(ix.X) + "[" + exprText(ix.Index) + "]"
+	}
+	return exprText(e)
 }
 
 func (t *tr) field(path string) (string, bool) {
@@ -327,6 +338,20 @@ func (t *tr) stmts(ss []ast.Stmt, k func() string, ind string) string {
 		}
 		return t.assign(x.X, fmt.Sprintf("(%s %s 1)", t.expr(x.X), op), ind) + cont()
 	case *ast.AssignStmt:
+		if len(x.Lhs) == 2 && len(x.Rhs) == 1 && x.Tok == token.DEFINE {
+			// v, ok := <type assertion | map lookup | two-valued call>, mapped by the schema
+			pr, ok := t.k.Pairs[pairKey(x.Rhs[0])]
+			if !ok || len(pr) != 2 {
+				panic("unmapped two-valued assignment " + pairKey(x.Rhs[0]))
+			}
+			out := ""
+			for i, lhs := range x.Lhs {
+				if id, ok := lhs.(*ast.Ident); ok && id.Name != "_" {
+					out += fmt.Sprintf("%slet %s := %s;\n", ind, id.Name, pr[i])
+				}
+			}
+			return out + cont()
+		}
 		if len(x.Lhs) != 1 || len(x.Rhs) != 1 {
 			panic("multi-assignment unsupported")
 		}
